@@ -129,6 +129,48 @@ def check_solver(ck, repo, df, sv):
     ck.floor("solver paths", n, 12)
 
 
+def pure_counters(lp):
+    """Carried numeric variables whose transfer is 'previous value + positive constant'."""
+    out = set()
+    for nm, b in getattr(lp, "bound", {}).items():
+        t = lp.transfer.get(nm)
+        if isinstance(b, Num) and isinstance(t, Num):
+            d = t.r - b.r
+            if d.is_const() and d.const_value() > 0:
+                out.add(nm)
+    return out
+
+
+def is_counter_exit(o, lp, sv):
+    """The path raises inside the loop body under a test that mentions only iteration counters and constants."""
+    node = o.exc.node
+    if node is None or not (lp.node.lineno <= getattr(node, "lineno", -1) <= getattr(lp.node, "end_lineno", 10 ** 9)):
+        return False
+    if not o.trace:
+        return False
+    cond, dec = o.trace[-1]
+    names = set()
+    for i in poly.key_deps(cond):
+        a = poly.T.get(i)
+        if a.kind == "sym":
+            names.add(a.name)
+        elif a.kind != "sym" and not a.deps:
+            pass
+    counters = {"#w.%s" % nm for nm in _counter_names(lp)}
+    return bool(names) and names <= counters
+
+
+def _counter_names(lp):
+    # at the time of the raise the transfer of the counter may not have been recorded; recompute from the bound state
+    out = set()
+    for nm, b in getattr(lp, "bound", {}).items():
+        if isinstance(b, Num):
+            out.add(nm)
+    comps = {nm for nm, v in getattr(lp, "bound", {}).items() if not isinstance(v, Num)}
+    return out - comps - {nm for nm in out if lp.guard is not None and isinstance(lp.guard, BoolV) and isinstance(lp.guard.cond, tuple)
+                          and any(poly.T.get(i).name == "#w.%s" % nm for i in poly.key_deps(lp.guard.cond) if poly.T.get(i).kind == "sym")}
+
+
 def check_solver_path(ck, repo, df, sv, o, given):
     fq = sv.qualname
     wl = [l for l in o.loops if l.kind == "while" and l.func is sv]
@@ -138,6 +180,10 @@ def check_solver_path(ck, repo, df, sv, o, given):
         ck.note("path with the fixed-point loop skipped (precision above the initial distance) is outside the domain; not judged")
         return
     if o.kind != "return":
+        if wl and is_counter_exit(o, wl[0], sv):
+            ck.note("path leaving the loop through its iteration cap (raise guarded by a pure counter) is the bounded-iteration "
+                    "exit required by C10; not judged here")
+            return
         ck.ob("D3", fq, "solver returns under an admissible single permeate condition", o.exc.where or sv.loc(), False,
               "raises %s: %s" % (o.exc.exc_type, o.exc.msg))
         return
@@ -195,8 +241,8 @@ def check_solver_path(ck, repo, df, sv, o, given):
               found=lambda: key_str(val_key(cl.bound.get(p))))
     # state variables: find the iterate (Composition-valued carried variable) and the distance (numeric carried variable)
     comps = [nm for nm, v in lp.bound.items() if isinstance(v, ObjV) and v.cls.name == "Composition"]
-    nums = [nm for nm, v in lp.bound.items() if isinstance(v, Num)]
-    ck.ob("D3", fq, "loop state = one iterate composition + one distance", where, len(comps) == 1 and len(nums) == 1,
+    nums = [nm for nm, v in lp.bound.items() if isinstance(v, Num) and nm not in pure_counters(lp)]
+    ck.ob("D3", fq, "loop state = one iterate composition + one distance (+ iteration counters)", where, len(comps) == 1 and len(nums) == 1,
           "carried variables: %s" % sorted(lp.bound))
     if len(comps) != 1 or len(nums) != 1:
         return
